@@ -386,6 +386,7 @@ RULES = [
     ("C12.VOCAB", 5, common.shared("c11", "rule_vocab", "C12.VOCAB")),
     ("C12.DHDFORM", 3, common.shared("c02", "rule_dhdform", "C12.DHDFORM")),
     ("C12.MERGELOOKUP", 4, common.shared("c13", "rule_mergelookup", "C12.MERGELOOKUP")),
+    ("C12.SAMPLING", 4, common.shared("c13", "rule_sides", "C12.SAMPLING", keep=lambda o: o.construct.startswith(("util.interpolate_intervals", "util.intervals_to_samples")))),
     ("C12.DTYPEFLOW", 3, common.rule_dtypeflow("C12.DTYPEFLOW")),
     ("C12.CROPSHARED", 8, rule_cropshared),
     ("C12.FRAMEMAP", 4, rule_framemap),
